@@ -33,6 +33,7 @@ type Gen struct {
 	P       *Profile
 	It      *Interp
 	qSeq    int
+	queue   []*Op  // ops of a multi-step scenario still to be emitted
 	hot     uint16 // components preferred by this case, so that entities share archetypes
 	N       int    // planned number of ops
 	resetAt int
@@ -144,6 +145,7 @@ func (g *Gen) Next(t *rapid.T) *Op {
 	add("qOpen", g.P.OpenQ && nLive > 0 && m.OpenQ < g.P.MaxOpenQ)
 	add("qNext", g.P.OpenQ && m.OpenQ > 0)
 	add("qClose", g.P.OpenQ && len(m.Open) > 0)
+	add("scenario", !locked && room && len(m.Filters) < 8)
 	add("misuse", g.P.Misuse)
 	add("read", true)
 	add("dumpLoad", !locked)
@@ -151,6 +153,14 @@ func (g *Gen) Next(t *rapid.T) *Op {
 	add("dump", true)
 	add("loadSaved", !locked && g.It.saved != nil)
 	add("probe", true)
+	if len(g.queue) > 0 {
+		op := g.queue[0]
+		g.queue = g.queue[1:]
+		if !locked {
+			return g.fixup(op)
+		}
+		g.queue = nil
+	}
 	if g.P.ObsPrefix > 0 && g.It.Step < g.P.ObsPrefix && len(m.Obs) < 8 {
 		op := g.genObs(t)
 		if g.P.ForceReset && len(m.Obs) == 0 {
@@ -260,6 +270,8 @@ func (g *Gen) Next(t *rapid.T) *Op {
 		op = g.genQNext(t)
 	case "qClose":
 		op = g.genQClose(t)
+	case "scenario":
+		op = g.genScenario(t)
 	case "misuse":
 		op = g.genMisuse(t)
 	case "read":
@@ -1232,4 +1244,87 @@ func (g *Gen) DrawHot(t *rapid.T) {
 	l := subset(t, 0xffff&^comps.RelMask, 3, 5, "hotComps")
 	r := subset(t, comps.RelMask, 1, 2, "hotRels")
 	g.hot = maskOf(l) | maskOf(r)
+}
+
+// fixup resolves placeholders of queued scenario ops against the current model (filter index of the scenario).
+func (g *Gen) fixup(op *Op) *Op {
+	if op.F == -1 {
+		op.F = len(g.m().Filters) - 1
+	}
+	return op
+}
+
+// genScenario emits a multi-step scenario that ends in a batch operation over a drawn typed mapper/exchange of ANY
+// arity, with >= 1 selected entity, several source tables and a destination table that already holds entities:
+//  1. a filter With(S) Without(first added component)
+//  2. 1-3 entities that already have S and the components to be added (the destination table)
+//  3. 1-4 entities with S (and sometimes one extra component: a second source table)
+//  4. the batch operation through the drawn instantiation.
+func (g *Gen) genScenario(t *rapid.T) *Op {
+	useEx := rapid.IntRange(0, 2).Draw(t, "scenarioViaExchange") == 0
+	var inst int
+	var list []int
+	if useEx {
+		inst = pickByArity(t, seq(len(ExInsts)), exArity, "exchanger")
+		list = ExInsts[inst].Comps
+	} else {
+		inst = pickByArity(t, seq(len(MapInsts)), mapArity, "mapper")
+		list = MapInsts[inst].Comps
+	}
+	am := maskOf(list)
+	base := subset(t, 0xffff&^am&^comps.RelMask, 0, 2, "scenarioBase")
+	extra := subset(t, 0xffff&^am&^maskOf(base)&^comps.RelMask, 1, 1, "scenarioExtra")
+	var rels []RelSpec
+	tgt := g.pickTarget(t)
+	for _, c := range list {
+		if comps.All[c].Relation {
+			rels = append(rels, RelSpec{C: c, T: tgt, S: rapid.IntRange(0, 2).Draw(t, "relStyle")})
+		}
+	}
+	urels := make([]RelSpec, len(rels))
+	for i, r := range rels {
+		urels[i] = RelSpec{C: r.C, T: r.T, S: 2}
+	}
+	var q []*Op
+	q = append(q, &Op{K: "filterNew", FS: &FilterSpec{Inst: 0, With: base, Without: []int{list[0]}}})
+	nDest := rapid.IntRange(1, 3).Draw(t, "scenarioDest")
+	for i := 0; i < nDest; i++ {
+		cl := append(append([]int{}, base...), list...)
+		q = append(q, &Op{K: "new", P: PUnsafe, Comps: cl, Vals: g.vals(len(cl)), Rels: urels})
+	}
+	nSrc := rapid.IntRange(1, 4).Draw(t, "scenarioSrc")
+	for i := 0; i < nSrc; i++ {
+		cl := append([]int{}, base...)
+		if len(extra) > 0 && rapid.IntRange(0, 2).Draw(t, "scenarioSecondTable") == 0 {
+			cl = append(cl, extra...)
+		}
+		op := &Op{K: "new", P: PUnsafe, Comps: cl}
+		if len(cl) > 0 {
+			op.Vals = g.vals(len(cl))
+		}
+		q = append(q, op)
+	}
+	b := &Op{K: "addBatch", F: -1, Comps: list, Rels: rels, Init: drawInit(t), Fn: true}
+	if useEx {
+		b.P = PEx
+		b.M = inst
+		if rapid.Bool().Draw(t, "scenarioExchange") && len(base) > 0 {
+			b.K = "exchangeBatch"
+			b.Rem = base[:1]
+		}
+	} else {
+		b.P = PMap
+		b.M = inst
+	}
+	if b.Init != InitNilFn {
+		b.Vals = g.vals(len(list))
+	}
+	q = append(q, b)
+	// sometimes follow up with the inverse batch removal through the same filter family
+	if !useEx && rapid.Bool().Draw(t, "scenarioRemoveAfter") {
+		q = append(q, &Op{K: "filterNew", FS: &FilterSpec{Inst: 0, With: append(append([]int{}, base...), list[0])}})
+		q = append(q, &Op{K: "removeBatch", F: -1, P: PMap, M: inst, Rem: list, Fn: rapid.Bool().Draw(t, "fn")})
+	}
+	g.queue = q[1:]
+	return q[0]
 }
